@@ -29,12 +29,13 @@ Proof. unfold B'. rewrite N.lor_spec, testbit_bit1, N.eqb_refl. apply orb_true_r
 Lemma conn_mono a b : conn s B a b -> conn s B' a b.
 Proof. unfold conn. apply reach_mono, sub_BB'. Qed.
 
-(* how a square reaches the new square: it is the new square, or connected inside B to a neighbour of it *)
-Definition touches (a : N) : Prop := a = i \/ exists j, conn s B a j /\ (nb c j i \/ nb c i j).
+(* how a square reaches the new square: it is the new square, or connected to it inside B already, or connected inside B
+   to a neighbour of it *)
+Definition touches (a : N) : Prop := a = i \/ conn s B a i \/ exists j, conn s B a j /\ (nb c j i \/ nb c i j).
 
 Lemma touches_conn a : touches a -> conn s B' a i.
 Proof.
-  intros [->|(j & Hc & Hn)]. { apply conn_refl, i_in_B'. }
+  intros [->|[Hc|(j & Hc & Hn)]]. { apply conn_refl, i_in_B'. } { now apply conn_mono. }
   destruct (conn_in_B s Hs B HB a j Hc) as [_ Hj].
   eapply conn_trans; [apply conn_mono; exact Hc|].
   apply conn_step; [apply sub_BB', Hj|apply i_in_B'|].
